@@ -2,12 +2,16 @@ package checks
 
 import (
 	"bytes"
+	"crypto/sha512"
 	"errors"
 	"flag"
 	"fmt"
 	"os"
 	"path/filepath"
 	"sync"
+	"testing"
+	"testing/synctest"
+	"time"
 
 	"github.com/google/go-tdx-guest/abi"
 	"github.com/google/go-tdx-guest/client"
@@ -37,6 +41,9 @@ type c15Script struct {
 	tdReport [1024]byte
 	quoteRaw []byte
 	garbage  []byte
+	// thenOK: only the FIRST quote request is answered as scripted; a later request in the same call
+	// would be answered with status 0 and the valid quote (a device that is busy at first)
+	thenOK bool
 }
 
 type c15Device struct {
@@ -89,6 +96,10 @@ func (d *c15Device) Ioctl(cmd uintptr, arg any) (uintptr, error) {
 		}
 		hdr.Status = d.s.status
 		hdr.OutLen = d.s.outLen
+		if d.s.thenOK && d.nQuote >= 2 {
+			copy(hdr.Data[:], d.s.quoteRaw)
+			hdr.Status, hdr.OutLen = 0, uint32(len(d.s.quoteRaw))
+		}
 		d.wrote = append([]byte(nil), hdr.Data[:]...)
 		return uintptr(d.s.quote.result), nil
 	}
@@ -167,6 +178,25 @@ func c15Run(r *core.Run) {
 		}
 	}
 
+	// A device that answers the first quote request with a failure status and would answer a repeated
+	// request with the quote: the outcome of the call is the failure.
+	for si, st := range statuses {
+		if st == 0 {
+			continue
+		}
+		name := fmt.Sprintf("rep=%d,q=1,st=%s-then-ok,out=exact,buf=0,rd=%d", repIdx, statusNames[si], rdKind)
+		if !r.Item(name) {
+			continue
+		}
+		s := &c15Script{report: rep, quote: c15Outcomes[1], status: st, outLen: uint32(len(quoteRaw)), bufKind: 0, tdReport: tdReport, quoteRaw: quoteRaw, garbage: garbage, thenOK: true}
+		c15Judge(r, name, s, rd, statusNames[si]+"-then-ok", "exact", &kept)
+		r.EndItem()
+	}
+	// Several callers fetch quotes through ONE device at overlapping (simulated) times.
+	if r.Item("device:concurrent-callers") {
+		c15Concurrent(r)
+		r.EndItem()
+	}
 	// A provider whose support changes between calls through the SAME provider value.
 	if r.Item("provider:support-toggles") {
 		c15Toggle(r, quoteRaw, rd)
@@ -183,6 +213,149 @@ func c15Run(r *core.Run) {
 				c15JudgeProvider(r, name, supported, dk, withErr, quoteRaw, rd)
 				r.EndItem()
 			}
+		}
+	}
+}
+
+// c15SharedDev is a device used by several callers at once.  Each request takes simulated time (a
+// function of its content), so that the requests of different callers overlap in an order the seed
+// decides; what it answers depends only on the request: the TD report embeds the report data, the
+// quote embeds the TD report.
+type c15SharedDev struct {
+	mu      sync.Mutex
+	reports map[[64]byte]int
+	quotes  int
+	latR    func(rd [64]byte) time.Duration
+	latQ    func(td []byte) time.Duration
+}
+
+func c15ReportFor(rd [64]byte) (td [1024]byte) {
+	copy(td[:], rd[:])
+	h := sha512.Sum384(rd[:])
+	for i := 64; i < 1024; i++ {
+		td[i] = h[i%48] ^ byte(i)
+	}
+	return
+}
+
+func c15QuoteFor(td []byte) []byte {
+	h := sha512.Sum384(td)
+	q := append([]byte("QUOTE:"), td[:64]...)
+	for i := 0; i < 600+int(h[0]); i++ {
+		q = append(q, h[i%48]^byte(i>>3))
+	}
+	return q
+}
+
+func (d *c15SharedDev) Open(string) error { return nil }
+func (d *c15SharedDev) Close() error      { return nil }
+func (d *c15SharedDev) Ioctl(cmd uintptr, arg any) (uintptr, error) {
+	switch req := arg.(type) {
+	case *labi.TdxReportReq:
+		rd := req.ReportData
+		d.mu.Lock()
+		d.reports[rd]++
+		d.mu.Unlock()
+		time.Sleep(d.latR(rd))
+		req.TdReport = c15ReportFor(rd)
+		return 0, nil
+	case *labi.TdxQuoteReq:
+		hdr, ok := req.Buffer.(*labi.TdxQuoteHdr)
+		if !ok {
+			return 0, errors.New("scripted: unexpected buffer type")
+		}
+		td := append([]byte(nil), hdr.Data[:1024]...)
+		d.mu.Lock()
+		d.quotes++
+		d.mu.Unlock()
+		time.Sleep(d.latQ(td))
+		q := c15QuoteFor(td)
+		copy(hdr.Data[:], q)
+		hdr.Status, hdr.OutLen = 0, uint32(len(q))
+		return 0, nil
+	}
+	return 0, fmt.Errorf("scripted: unknown request %T", arg)
+}
+
+// c15Concurrent: 2-4 callers with different report data on one device, inside a fake-clock bubble.  Each
+// must see its own report data reach the device and get back the quote the device made for it.
+func c15Concurrent(r *core.Run) {
+	t := r.T
+	n := 2 + t.Draw(3)
+	rds := make([][64]byte, n)
+	starts := make([]time.Duration, n)
+	for i := range rds {
+		copy(rds[i][:], t.Bytes(64))
+		starts[i] = time.Duration(t.Draw(4)) * 10 * time.Millisecond
+	}
+	if t.Chance(1, 4) {
+		rds[1] = rds[0] // two callers with the very same report data
+	}
+	lr, lq := 1+t.Draw(50), 1+t.Draw(200)
+	dev := &c15SharedDev{reports: map[[64]byte]int{},
+		latR: func(rd [64]byte) time.Duration { return time.Duration(lr+int(rd[0])%40) * time.Millisecond },
+		latQ: func(td []byte) time.Duration { return time.Duration(lq+int(td[1])%300) * time.Millisecond }}
+	type resT struct {
+		data []byte
+		out  core.Outcome
+	}
+	res := make([]resT, n)
+	leak := ""
+	func() {
+		defer func() {
+			if p := recover(); p != nil {
+				leak = fmt.Sprint(p)
+			}
+		}()
+		synctest.Test(r.TB, func(*testing.T) {
+			var wg sync.WaitGroup
+			for i := 0; i < n; i++ {
+				i := i
+				wg.Add(1)
+				go func() {
+					defer wg.Done()
+					time.Sleep(starts[i])
+					res[i].out = core.Call(func() error {
+						var err error
+						res[i].data, err = client.GetRawQuote(dev, rds[i])
+						return err
+					})
+				}()
+			}
+			wg.Wait()
+		})
+	}()
+	r.Eval()
+	r.State("concurrent callers n=%d", n)
+	r.Eventf("concurrent callers n=%d starts=%v -> report requests for %d distinct report data, %d quote requests", n, starts, len(dev.reports), dev.quotes)
+	r.Fault("sched:overlapping_callers_on_one_device", true)
+	r.Probe("concurrent_callers_on_one_device")
+	if leak != "" {
+		r.Violate("C15:concurrent:goroutines-left-blocked", "after %d overlapping GetRawQuote calls on one device goroutines were still blocked: %s", n, leak)
+		return
+	}
+	for i := 0; i < n; i++ {
+		if res[i].out.Panicked {
+			r.Violate("C15:concurrent:panic", "caller %d of %d overlapping callers: GetRawQuote panicked: %s", i, n, res[i].out.PanicVal)
+			continue
+		}
+		if res[i].out.Err != nil {
+			r.Violate("C15:concurrent:good-outcome-rejected", "caller %d of %d overlapping callers: the device served every request, yet: %v", i, n, res[i].out.Err)
+			continue
+		}
+		if dev.reports[rds[i]] == 0 {
+			r.Violate("C15:concurrent:report-data-not-relayed", "caller %d of %d overlapping callers: its 64 bytes of report data never reached a report request", i, n)
+		}
+		td := c15ReportFor(rds[i])
+		if want := c15QuoteFor(td[:]); !bytes.Equal(res[i].data, want) {
+			whose := "no caller's"
+			for j := range rds {
+				tj := c15ReportFor(rds[j])
+				if j != i && bytes.Equal(res[i].data, c15QuoteFor(tj[:])) {
+					whose = fmt.Sprintf("caller %d's", j)
+				}
+			}
+			r.Violate("C15:concurrent:wrong-quote", "caller %d of %d overlapping callers got %s quote (%d bytes) instead of the one the device made from its own TD report", i, n, whose, len(res[i].data))
 		}
 	}
 }
@@ -218,6 +391,9 @@ func c15Judge(r *core.Run, name string, s *c15Script, rd [64]byte, stName, olNam
 	reportOK := !s.report.err && s.report.result == 0
 	quoteOK := !s.quote.err && s.quote.result == 0
 	good := reportOK && quoteOK && s.status == 0 && s.outLen > 0 && s.outLen <= c15Buf
+	if s.thenOK {
+		r.Fault("device_busy_at_first_then_ready", dev.nQuote > 0)
+	}
 	r.Eventf("%s -> acc=%v panic=%v len=%d", name, out.Accepted(), out.Panicked, len(data))
 	r.State("rep=%v,q=%v/%d,st=%s,out=%s,buf=%d,%v", reportOK, s.quote.err, s.quote.result, stName, olName, s.bufKind, out.Accepted())
 	if !reportOK {
@@ -481,7 +657,7 @@ func init() {
 		ID:    "C15",
 		Level: "fault_enumeration",
 		Rule: "per run a seeded device world (TD report, generated quote with tape-chosen auth-data length/extra bytes, garbage buffer, arbitrary status) and one (report-ioctl outcome, report-data kind) pair; inside the run the complete grid " +
-			"quote-ioctl{error,result 0,1,7,8,9} x status{0,in-flight,error,unavailable,arbitrary} x OutLen{0,1,exact,buffer,buffer+1,2^32-1} x buffer{quote,garbage,TD report left in place} plus all 24 provider behaviours (supported or not x bytes{quote, empty, nil, quote+zero padding, quote+other bytes, cut quote} x error or not); for every good device outcome and every supported provider GetQuote is compared with abi.QuoteToProto of the raw result; " +
+			"quote-ioctl{error,result 0,1,7,8,9} x status{0,in-flight,error,unavailable,arbitrary} x OutLen{0,1,exact,buffer,buffer+1,2^32-1} x buffer{quote,garbage,TD report left in place} plus 2-4 callers with different report data on one device at overlapping simulated times (fake-clock bubble; each must get the quote made for its own report data); plus all 24 provider behaviours (supported or not x bytes{quote, empty, nil, quote+zero padding, quote+other bytes, cut quote} x error or not); for every good device outcome and every supported provider GetQuote is compared with abi.QuoteToProto of the raw result; " +
 			"30 runs cover report-ioctl{error,0,1,7,8,9} x report-data{zeros,ones,random}. distinct = (report ok, quote outcome, status, OutLen, buffer kind, verdict); all but the single all-good cell carry an injected device fault",
 		Exhaustive: true,
 		Assumptions: []string{
@@ -496,7 +672,7 @@ func init() {
 			return 30
 		},
 		Run:         c15Run,
-		MustProbe:   []string{"good_outcome", "earlier_results_rechecked_after_later_calls", "getquote_equals_parse", "getquote_with_bytes_behind_the_quote", "provider_getquote_equals_parse", "fallback_to_device_path", "provider_support_toggles", "status0_bad_outlen_0", "status0_bad_outlen_buffer+1"},
+		MustProbe:   []string{"good_outcome", "earlier_results_rechecked_after_later_calls", "getquote_equals_parse", "getquote_with_bytes_behind_the_quote", "provider_getquote_equals_parse", "concurrent_callers_on_one_device", "fallback_to_device_path", "provider_support_toggles", "status0_bad_outlen_0", "status0_bad_outlen_buffer+1"},
 		SimTimeNote: "no clock in this property",
 	})
 }
